@@ -40,7 +40,8 @@ theorem C08_if (ops : DMOps σ) (rs : Regions) (cfg : List Nat) (caller : Option
     (c : Str) (t e : Nat) (x : XS σ) :
     execItem ops rs cfg caller (f + 1) (.if_ c t e) x =
       (let r := ops.cond x.dm cfg c
-       let x' := x.absorb r
+       let x0 := x.absorb r
+       let x' := if r.val.isNone then { x0 with raised := x0.raised ++ [errorExecution] } else x0
        if r.val.getD false then
          (if t != 0 then execItems ops rs cfg caller f (regionOf rs t) x' else (x', true))
        else if e != 0 then execItems ops rs cfg caller f (regionOf rs e) x'
@@ -53,7 +54,8 @@ theorem C08_if (ops : DMOps σ) (rs : Regions) (cfg : List Nat) (caller : Option
 theorem C08_if_elseif_else (ops : DMOps σ) (rs : Regions) (cfg : List Nat) (caller : Option Str) (f : Nat)
     (c1 c2 : Str) (t1 t2 e1 e2 : Nat) (x : XS σ)
     (he1 : e1 ≠ 0) (hr : regionOf rs e1 = [.if_ c2 t2 e2])
-    (h1 : (ops.cond x.dm cfg c1).val.getD false = false) :
+    (h1 : (ops.cond x.dm cfg c1).val = some false)
+    (h2 : ((ops.cond (x.absorb (ops.cond x.dm cfg c1)).dm cfg c2).val).isSome = true) :
     execItem ops rs cfg caller (f + 3) (.if_ c1 t1 e1) x =
       (let x1 := x.absorb (ops.cond x.dm cfg c1)
        let r2 := ops.cond x1.dm cfg c2
@@ -63,12 +65,16 @@ theorem C08_if_elseif_else (ops : DMOps σ) (rs : Regions) (cfg : List Nat) (cal
          else if e2 != 0 then execItems ops rs cfg caller f (regionOf rs e2) x2
          else (x2, true)) := by
   rw [C08_if]
-  simp only [h1, Bool.false_eq_true, ↓reduceIte]
+  simp only [h1, Option.isNone_some, Option.getD_some, Bool.false_eq_true, ↓reduceIte]
   have : (e1 != 0) = true := by simpa using he1
   simp only [this, ↓reduceIte, hr]
   conv => lhs; unfold execItems
   rw [C08_if]
-  simp only
+  have hn : ((ops.cond (x.absorb (ops.cond x.dm cfg c1)).dm cfg c2).val).isNone = false := by
+    cases hv : (ops.cond (x.absorb (ops.cond x.dm cfg c1)).dm cfg c2).val with
+    | none => rw [hv] at h2; cases h2
+    | some _ => rfl
+  simp only [hn, Bool.false_eq_true, ↓reduceIte]
   generalize (if (ops.cond (x.absorb (ops.cond x.dm cfg c1)).dm cfg c2).val.getD false = true then _ else _) = r
   obtain ⟨x', b⟩ := r
   cases b <;> simp [execItems]
@@ -146,25 +152,37 @@ theorem C08_send_illegal_delay (ops : DMOps σ) (cfg : List Nat) (caller : Optio
   omega
 #assert_axioms C08_send_illegal_delay
 
-/-- error clause, what the code does NOT guarantee: for an erroring `<if>` condition the only
-    `error.execution` is the one the data model raises itself — `If::execute` adds none.  With a data
-    model that reports the error as `Err` without raising (as rfsm-expression and ECMAScript do),
-    no event reaches the queue: the statement's error clause is violated (finding P11). -/
-theorem C08_if_cond_error_raises_nothing (ops : DMOps σ) (rs : Regions) (cfg : List Nat) (caller : Option Str)
-    (f : Nat) (c : Str) (x : XS σ)
-    (herr : (ops.cond x.dm cfg c).val = none) (hquiet : (ops.cond x.dm cfg c).raised = []) :
-    (execItem ops rs cfg caller (f + 1) (.if_ c 0 0) x).1.raised = x.raised ∧
+/-- error clause for `<if>` (since the `fix:` commit): an erroring condition raises exactly one
+    `error.execution` beyond what the data model raises itself, counts as false, and the block goes on -/
+theorem C08_if_cond_error (ops : DMOps σ) (rs : Regions) (cfg : List Nat) (caller : Option Str)
+    (f : Nat) (c : Str) (x : XS σ) (herr : (ops.cond x.dm cfg c).val = none) :
+    (execItem ops rs cfg caller (f + 1) (.if_ c 0 0) x).1.raised =
+      x.raised ++ (ops.cond x.dm cfg c).raised ++ [errorExecution] ∧
     (execItem ops rs cfg caller (f + 1) (.if_ c 0 0) x).2 = true := by
   rw [C08_if]
+  simp [herr, XS.absorb]
+#assert_axioms C08_if_cond_error
+
+/-- error clause, what the code does NOT guarantee: for an erroring `<script>` / `<log>` /
+    `<send>` argument the only `error.execution` is the one the data model raises itself inside
+    `execute` — `Expression::execute`, `Log::execute`, `SendParameters::execute` add none for these.
+    With a data model that reports such errors as `Err` without raising (as rfsm-expression and
+    ECMAScript do for parse / reference errors), no event reaches the queue (finding P11). -/
+theorem C08_script_error_raises_nothing (ops : DMOps σ) (rs : Regions) (cfg : List Nat) (caller : Option Str)
+    (f : Nat) (e : Str) (x : XS σ)
+    (herr : (ops.exec x.dm cfg e).val = none) (hquiet : (ops.exec x.dm cfg e).raised = []) :
+    (execItem ops rs cfg caller (f + 1) (.expr e) x).1.raised = x.raised ∧
+    (execItem ops rs cfg caller (f + 1) (.expr e) x).2 = false := by
+  rw [(C08_log_script ops rs cfg caller f [] e x).1]
   simp [herr, XS.absorb, hquiet]
-#assert_axioms C08_if_cond_error_raises_nothing
+#assert_axioms C08_script_error_raises_nothing
 
 /-- C08 at full strength needs, besides the structural clauses above, that *every* evaluation
-    error raises exactly one `error.execution`: -/
+    error raises exactly one `error.execution`; for `<script>`: -/
 def C08_full : Prop :=
-  ∀ (σ : Type) (ops : DMOps σ) (rs : Regions) (cfg : List Nat) (caller : Option Str) (f : Nat) (c : Str) (x : XS σ),
-    (ops.cond x.dm cfg c).val = none →
-      ∃ ev, (execItem ops rs cfg caller (f + 1) (.if_ c 0 0) x).1.raised = x.raised ++ [ev] ∧ ev.name = errorExecution.name
+  ∀ (σ : Type) (ops : DMOps σ) (rs : Regions) (cfg : List Nat) (caller : Option Str) (f : Nat) (e : Str) (x : XS σ),
+    (ops.exec x.dm cfg e).val = none →
+      ∃ ev, (execItem ops rs cfg caller (f + 1) (.expr e) x).1.raised = x.raised ++ [ev] ∧ ev.name = errorExecution.name
 
 /-- … which fails for the code as it is: a data model that returns `Err` quietly -/
 theorem C08_counterexample : ¬ C08_full := by
@@ -178,7 +196,7 @@ theorem C08_counterexample : ¬ C08_full := by
       platformSend := fun _ _ _ _ => .noProcessor, hasProcessor := fun _ _ => false, parseDelay := fun _ => 0,
       invoke := fun dm _ _ _ => { dm := dm } }
   obtain ⟨ev, hev, _⟩ := h Unit ops [] [] none 0 [] { dm := () } rfl
-  have := (C08_if_cond_error_raises_nothing ops [] [] none 0 [] { dm := () } rfl rfl).1
+  have := (C08_script_error_raises_nothing ops [] [] none 0 [] { dm := () } rfl rfl).1
   rw [this] at hev
   simp at hev
 #assert_axioms C08_counterexample
